@@ -44,6 +44,40 @@ CLAIMS = {
         note="A structural necessary condition is decided, not the behaviour (see C09).",
         technique="dataflow role extraction + typed-buffer discipline per emission block + sibling fact comparison",
         design="2/C10"),
+    "C01": dict(
+        text="Decides four structural invariants that every statement of the package must preserve and that together imply "
+             "isolation for all histories: (a) storage is only ever assigned values of tuple provenance and never written "
+             "in place (all stores, package-wide scan for in-place writes through _underlying or local aliases); (b) only four "
+             "audited functions store _underlying and every Vector that becomes a Table column is FRESH on every reaching "
+             "definition; (c) an interprocedural effect analysis (freshness/ownership provenance, summaries to fixpoint "
+             "over ~190 functions) shows every non-mutator has an empty content-write summary on every parameter and every "
+             "mutator/constructor writes only its receiver; (d) the alias check dominates every write event of "
+             "Vector.__setitem__ and _promote is reached only from there or on a fresh copy.",
+        note="Trusted: the provenance lattice and builtin-mutator table of the effect engine; flow-insensitive inside a "
+             "function (sound, may over-report); mutable ELEMENTS (lists inside object vectors) are out of scope; no "
+             "monkey-patching, no setattr with computed field names (verified, else exit 2).",
+        technique="interprocedural effect/ownership analysis + reaching definitions + CFG dominance + who-may-store rule",
+        design="2/C01"),
+    "C15": dict(
+        text="Discharges the quantifier over GC/allocation histories by an invariant (every live registered vector is listed "
+             "under id(its current storage) and nowhere else) and decides that every statement preserves it: each storage "
+             "swap is bracketed on all paths by unregister(obj, id(storage current at the swap)) - path-sensitive: a swap on "
+             "a def-use path of the captured id makes it stale - and register(obj, id(the stored tuple)); no __new__ returns "
+             "an initialised object whose __init__ re-runs unguarded; registration happens once, last; check_writable refuses "
+             "iff >= 2 LIVE referents after pruning; only four functions call the tracker; copy() builds fresh storage.",
+        note="Trusted: CPython keeps a tuple alive while a live vector references it (identity cannot be recycled); weakref "
+             "semantics. Empty vectors / `v << []` really share storage, so refusal there is consistent with the statement.",
+        technique="CFG pairing (dominance/post-dominance) + path-sensitive def-use staleness + shape facts of the tracker",
+        design="2/C15"),
+    "C16": dict(
+        text="Cache-coherence by structure: every Vector storage swap is followed on all paths by invalidation of the same "
+             "object's memo (or compensated at every call site / fresh receiver); Table.fingerprint resolves to a definition "
+             "that neither reads nor writes a memo (columns are live views); the only computed store to _fp is the full "
+             "recomputation under `_fp is None`; the fold is order-sensitive over all elements and reads nothing but the "
+             "elements (no id(), names, dtypes, time); fingerprint code writes cache fields only.",
+        note="Trusted: hash() of element values; collision-freedom is not decided (statement excludes hash-equal pairs).",
+        technique="CFG must-pass-through (store -> invalidation) + MRO resolution + dataflow slice of the fold + effect summaries",
+        design="2/C16"),
 }
 
 PENDING = "static rules for this property are designed (DESIGN.md section 2) but not yet built in this round; not claimed yet"
